@@ -327,6 +327,94 @@ Section World.
     eapply step_patch_only_unassigned; [apply reachable_fetch_ok; exact Hr|exact Hs|exact He].
   Qed.
 
+  (* ---- C20 (model side): work items never write the informer caches ---- *)
+  Definition same_caches (w w' : world) : Prop :=
+    (w_ncache w' = w_ncache w /\ w_ccache w' = w_ccache w) \/ (w_ctl w' = None /\ w_ncache w' = [] /\ w_ccache w' = []).
+
+  Lemma apply_patch_caches w n cs o : w_ncache (apply_patch w n cs o) = w_ncache w /\ w_ccache (apply_patch w n cs o) = w_ccache w /\ w_ctl (apply_patch w n cs o) = w_ctl w.
+  Proof. unfold apply_patch. destruct o; try (repeat split; reflexivity); destruct (find_anode n (w_nodes w)) as [a|]; try (repeat split; reflexivity); destruct (an_cidrs a); repeat split; reflexivity. Qed.
+  Lemma apply_update_cc_caches w o out : w_ncache (apply_update_cc w o out) = w_ncache w /\ w_ccache (apply_update_cc w o out) = w_ccache w /\ w_ctl (apply_update_cc w o out) = w_ctl w.
+  Proof.
+    unfold apply_update_cc. destruct out; try (repeat split; reflexivity); destruct (find_cc (o_name o) (w_ccs w)) as [c|]; try (repeat split; reflexivity);
+      destruct (negb (o_rv c =? o_rv o)); try (repeat split; reflexivity);
+      match goal with |- context [if ?b then _ else _] => destruct b end; repeat split; reflexivity.
+  Qed.
+  Lemma apply_effects_caches fx : forall w, w_ncache (apply_effects w fx) = w_ncache w /\ w_ccache (apply_effects w fx) = w_ccache w /\ w_ctl (apply_effects w fx) = w_ctl w.
+  Proof.
+    induction fx as [|e fx IH]; intros w; [repeat split; reflexivity|]. destruct e as [nd cs o|r ob|nd ok|o' outcome|o' outcome]; cbn [apply_effects].
+    - destruct (IH (apply_patch w nd cs o)) as (A & B & C). destruct (apply_patch_caches w nd cs o) as (A' & B' & C'). repeat split; congruence.
+    - apply IH.
+    - apply IH.
+    - destruct (IH (apply_update_cc w o' outcome)) as (A & B & C). destruct (apply_update_cc_caches w o' outcome) as (A' & B' & C'). repeat split; congruence.
+    - apply IH.
+  Qed.
+
+  Lemma after_call_caches {A} w (r : res A) m' : same_caches w (after_call w r m').
+  Proof. unfold after_call, same_caches. destruct r; cbn; tauto. Qed.
+
+  Lemma same_caches_effects w w1 fx : same_caches w w1 -> same_caches w (apply_effects w1 fx).
+  Proof.
+    destruct (apply_effects_caches fx w1) as (A & B & C). unfold same_caches. rewrite A, B, C. tauto.
+  Qed.
+
+  Theorem node_work_item_keeps_caches w cached key outs : same_caches w (fst (run_node_sync po lab w cached key outs)).
+  Proof.
+    unfold run_node_sync. destruct (w_ctl w) as [m|]; [|left; split; reflexivity].
+    destruct (sync_node _ _ _ _ _ _ _ _ _) as [[m' r] fx]. cbn [fst]. apply same_caches_effects. apply after_call_caches.
+  Qed.
+
+  Theorem cc_work_item_keeps_caches w key cached out : same_caches w (fst (run_cc_sync w key cached out)).
+  Proof.
+    unfold run_cc_sync. destruct (w_ctl w) as [m|]; [|left; split; reflexivity].
+    match goal with |- context [sync_cc m key cached ?o] => destruct (sync_cc m key cached o) as [[m' r] fx] end.
+    cbn [fst]. apply same_caches_effects.
+    pose proof (after_call_caches w r m') as H.
+    destruct cached as [o|]; [destruct (o_deleting o && negb (has_str (o_name o) (w_delseen (after_call w r m'))))%bool|]; cbn; exact H.
+  Qed.
+
+  (* ---- C11: a work item that failed is queued again ---- *)
+  Lemma apply_effects_queues fx : forall w, w_nq (apply_effects w fx) = w_nq w /\ w_cq (apply_effects w fx) = w_cq w.
+  Proof.
+    induction fx as [|e fx IH]; intros w; [split; reflexivity|]. destruct e as [nd cs o|r ob|nd ok|o' outcome|o' outcome]; cbn [apply_effects]; try apply IH.
+    - destruct (IH (apply_patch w nd cs o)) as (A & B). rewrite A, B. unfold apply_patch.
+      destruct o; try (split; reflexivity); destruct (find_anode nd (w_nodes w)) as [a|]; try (split; reflexivity); destruct (an_cidrs a); split; reflexivity.
+    - destruct (IH (apply_update_cc w o' outcome)) as (A & B). rewrite A, B. unfold apply_update_cc.
+      destruct outcome; try (split; reflexivity); destruct (find_cc (o_name o') (w_ccs w)) as [c|]; try (split; reflexivity);
+        destruct (negb (o_rv c =? o_rv o')); try (split; reflexivity);
+        match goal with |- context [if ?b then _ else _] => destruct b end; split; reflexivity.
+  Qed.
+
+  Lemma q_add_retry_in k q : In k (q_retry (q_add_retry k q)).
+  Proof.
+    unfold q_add_retry. destruct (has_str k (q_retry q)) eqn:E; cbn.
+    - unfold has_str in E. apply existsb_exists in E. destruct E as (x & Hx & He). apply str_eqb_eq in He. subst. exact Hx.
+    - apply in_or_app. right. left. reflexivity.
+  Qed.
+
+  Theorem failed_node_item_requeued w outs w' ob key rest :
+    w_ctl w <> None -> q_ready (w_nq w) = key :: rest ->
+    step po lab w (ProcNode outs) = (w', ob) -> ob_res ob = 2 ->
+    In key (q_retry (w_nq w')) /\ ob_requeued ob = true.
+  Proof.
+    intros Hc Hq H Hr. cbn [step] in H. destruct (w_ctl w) as [m|]; [|congruence]. rewrite Hq in H.
+    match type of H with context [run_node_sync po lab ?w1 ?c ?k ?o] => destruct (run_node_sync po lab w1 c k o) as [w2 ob2] end.
+    destruct (ob_res ob2 =? 2) eqn:E.
+    - inversion H; subst. cbn. split; [apply q_add_retry_in|reflexivity].
+    - inversion H; subst. apply N.eqb_neq in E. congruence.
+  Qed.
+
+  Theorem failed_cc_item_requeued w out w' ob key rest :
+    w_ctl w <> None -> q_ready (w_cq w) = key :: rest ->
+    step po lab w (ProcCC out) = (w', ob) -> ob_res ob = 2 ->
+    In key (q_retry (w_cq w')) /\ ob_requeued ob = true.
+  Proof.
+    intros Hc Hq H Hr. cbn [step] in H. destruct (w_ctl w) as [m|]; [|congruence]. rewrite Hq in H.
+    match type of H with context [run_cc_sync ?w1 ?k ?c ?o] => destruct (run_cc_sync w1 k c o) as [w2 ob2] end.
+    destruct (ob_res ob2 =? 2) eqn:E.
+    - inversion H; subst. cbn. split; [apply q_add_retry_in|reflexivity].
+    - inversion H; subst. apply N.eqb_neq in E. congruence.
+  Qed.
+
   (* C03: the state a new incarnation starts from is a function of the API objects (and the configured
      service ranges and the outcomes of its own start-up writes) only: nothing of the previous
      incarnation's memory, caches, queues or fetched items enters *)
